@@ -229,6 +229,8 @@ def run(ctx):
             a = 3.9083e-3 * rnd.uniform(0.98, 1.02)
             b = -5.775e-7 * rnd.uniform(0.98, 1.02)
             c = -4.183e-12 * rnd.uniform(0.98, 1.02)
+            if rnd.random() < 0.1:
+                c = rnd.choice([0.0, -0.0])        # a quadratic-only sensor description (C = 0): the law below 0 degC is then the same quadratic
             cur = rnd.choice([1e-3, 1e-4, 5e-4, 2e-3])
             cfg = rnd.choice([2, 3, 4])
             lead = rnd.choice([0.0, 0.5, 2.25, rnd.uniform(0, 10)])
